@@ -214,7 +214,7 @@ var c07LongKey = "long-" + strings.Repeat("0123456789abcdef", 20)
 
 func TestC07(t *testing.T) {
 	c := evid.New("C07")
-	c.Rule = "histories in which 2-4 identical requests of every write kind share an idempotency key (pool of 2 keys): sequential, racing (choice lists over run.ik.taken, store lookup, execution, run.wait) and retried after a crash placed anywhere; side class: same key on different requests; callers that go away at the moment their entry is handed to the batcher; one request held back while the others run. One case in 16 is parallel: 10-40 rounds of 2-8 real goroutines released together with the same keyed request against one real Commander. Oracle: <=1 entry per key; every success returns that entry's outcome. Non-trivial = >=2 same-key requests overlapping or straddling a restart; distinct by operations + gate trace."
+	c.Rule = "histories in which 2-4 identical requests of every write kind share an idempotency key (pool of 2 keys): sequential, racing (choice lists over run.ik.taken, store lookup, execution, run.wait) and retried after a crash placed anywhere; side class: same key on different requests; callers that go away at the moment their entry is handed to the batcher; a failing batch insert (the process dies, the retry comes after the restart); one request held back while the others run. One case in 16 is parallel: 10-40 rounds of 2-8 real goroutines released together with the same keyed request against one real Commander. Oracle: <=1 entry per key; every success returns that entry's outcome. Non-trivial = >=2 same-key requests overlapping or straddling a restart; distinct by operations + gate trace."
 	c.Assumptions = []string{engineAssumption}
 	cfg := enginesim.DefaultConfig()
 	cfg.IKPool = []string{"", "k1", "k1", "k2", "k2", c07LongKey} // one key longer than any column or buffer is likely to be
@@ -275,7 +275,7 @@ func TestC07(t *testing.T) {
 
 func TestC10(t *testing.T) {
 	c := evid.New("C10")
-	c.Rule = "one case in twelve goes over HTTP (single revert routes of v1 / v2 and bulk elements; force given as true, false or not at all; the mode applied must be the one each request states); otherwise: histories: funded accounts, committed transactions of generated shapes (multi-posting, posting mode, zero amounts, world on either side), later spends that do or do not move the funds on, then 1-4 reverts per round (forced/unforced, same or different targets, racing; a third of the histories hold a transaction of 13-24 postings which reverts aim at; up to two requests held back at a drawn point while the others run to completion), optional crash. One case in 16 is parallel: real goroutines released together on one revert target, at most one may take effect. Oracle: revert postings = original reversed and swapped, <=1 revert per target, unforced revert never overdraws (fold with grant 0), balances restored when nothing else touched them, one success per target. Non-trivial = a revert entry of a >=2-posting target, or racing reverts of one target, or a refused revert; distinct by operations + gate trace."
+	c.Rule = "one case in twelve goes over HTTP (single revert routes of v1 / v2 and bulk elements; force given as true, false or not at all; the mode applied must be the one each request states); otherwise: histories: funded accounts, committed transactions of generated shapes (multi-posting, posting mode, zero amounts, world on either side), later spends that do or do not move the funds on, then 1-4 reverts per round (forced/unforced, same or different targets, racing; a third of the histories hold a transaction of 13-24 postings which reverts aim at, as a fan-out or as a chain that may be leaky (every hop keeps something); up to two requests held back at a drawn point while the others run to completion), optional crash. One case in 16 is parallel: real goroutines released together on one revert target, at most one may take effect. Oracle: a forced revert is never refused for insufficient funds; revert postings = original reversed and swapped, <=1 revert per target, unforced revert never overdraws (fold with grant 0), balances restored when nothing else touched them, one success per target. Non-trivial = a revert entry of a >=2-posting target, or racing reverts of one target, or a refused revert; distinct by operations + gate trace."
 	c.Assumptions = []string{engineAssumption}
 	cfg := enginesim.DefaultConfig()
 	cfg.Kinds = []enginesim.OpKind{enginesim.OpCreate, enginesim.OpRevert, enginesim.OpRevert, enginesim.OpRevert}
@@ -413,7 +413,7 @@ func TestC11(t *testing.T) {
 
 func TestC16(t *testing.T) {
 	c := evid.New("C16")
-	c.Rule = "crash-free histories of all write kinds, real and preview (25%), with idempotency keys incl. replays of a persisted key, alone and concurrent; the Commander publishes through the real bus.ledgerMonitor into a recording publisher (each publication is a scheduling gate). Oracle: every published message matches, field by field, an entry persisted at the moment of publication; every entry whose request answered success is published at least once; previews and failures publish nothing. Non-trivial = history containing a revert entry, a preview, or a keyed replay; distinct by operations + gate trace."
+	c.Rule = "crash-free histories of all write kinds, real and preview (25%), with idempotency keys incl. replays of a persisted key (in a quarter of the histories a key also comes back on a different request), alone and concurrent, with failing store reads aimed at the k-th read of one request; the Commander publishes through the real bus.ledgerMonitor into a recording publisher (each publication is a scheduling gate). Oracle: every published message matches, field by field, an entry persisted at the moment of publication; every entry whose producing request lived to answer -- success or error -- is published at least once (producers and publications are matched to entries one to one, by augmenting paths); previews and failures publish nothing. Non-trivial = history containing a revert entry, a preview, or a keyed replay; distinct by operations + gate trace."
 	c.Assumptions = []string{engineAssumption}
 	cfg := enginesim.DefaultConfig()
 	cfg.DryRunPct = 25
